@@ -16,3 +16,42 @@ package ont
 //@   callsite[c18-operator] ValidateOwner#1 requires arg1 == gop
 //@   -- installing a trust root changes storage only with the operator's witness
 //@   ensures[c18-witness] Store != old(Store) ==> wit
+
+// ---- cross-chain message authentication (C24) -------------------------------------------------------
+//@ func FindKeyHeight
+//@   property C24
+//@   mode abstract
+//@   requires native != nil
+//@   modifies nothing
+
+//@ func getConsensusPeersByHeight
+//@   property C24
+//@   mode abstract
+//@   requires native != nil
+//@   modifies nothing
+//@   ensures err == nil ==> r0 != nil
+
+//@ func VerifyCrossChainMsg
+//@   property C24
+//@   mode abstract
+//@   requires native != nil && crossChainMsg != nil
+//@   ghost var ms bool = false
+//@   ghost var pm map[string]*Peer
+//@   set after "consensusPeer, err := getConsensusPeersByHeight(native, chainID, keyHeight)" : pm := consensusPeer.PeerMap
+//@   set after "err = signature.VerifyMultiSignature(hash[:], bookkeepers, len(bookkeepers), crossChainMsg.SigData)" : ms := err == nil
+//@   -- accepted only with at least the required number of listed signers, each a member of the tracked set ...
+//@   ensures[c24-count] err == nil ==> len(bookkeepers)*3 >= len(pm)
+//@   ensures[c24-member] err == nil ==> forall a int :: 0 <= a && a < len(bookkeepers) ==> has(pm, pubkeyID(ref(bookkeepers[a])))
+//@   -- ... a signer listed several times counts once: the listed keys are pairwise distinct ...
+//@   ensures[c24-distinct] err == nil ==> forall a int, b int :: 0 <= a && a < b && b < len(bookkeepers) ==> pubkeyID(ref(bookkeepers[a])) != pubkeyID(ref(bookkeepers[b]))
+//@   -- ... and every listed signer validly signed the message hash (multi-signature check with m = all listed)
+//@   ensures[c24-multisig] err == nil ==> ms
+//@   callsite[c24-all-sign] VerifyMultiSignature#1 requires arg1 == bookkeepers && arg2 == len(bookkeepers) && arg3 == crossChainMsg.SigData
+//@   loop 1 invariant forall a int :: 0 <= a && a < it1 ==> has(consensusPeer.PeerMap, pubkeyID(ref(bookkeepers[a])))
+
+//@ func GetKeyHeights
+//@   property C24
+//@   mode abstract
+//@   requires native != nil
+//@   modifies nothing
+//@   ensures err == nil ==> r0 != nil
